@@ -97,28 +97,27 @@ class RemoveAssertionInPytestRaisesTransformer(
             return updated_node
 
         assert_stmts: list[cst.SimpleStatementLine] = []
-        assert_position = len(original_node.body.body)
+        # The body is read from the updated node: an inner `with pytest.raises`
+        # may have moved its own assertions into this block already
+        assert_position = len(updated_node.body.body)
         new_statement_before_asserts = None
-        match original_node.body:
+        last_stmt = original_node.body.body[-1]
+        if not self.node_is_selected(last_stmt):
+            return updated_node
+        match updated_node.body:
             case cst.SimpleStatementSuite():
-                last_stmt = original_node.body.body[-1]
-                if not self.node_is_selected(last_stmt):
-                    return updated_node
                 (
                     assert_stmts,
                     assert_position,
                     new_statement_before_asserts,
-                ) = self._remove_last_asserts_from_suite(original_node.body.body)
+                ) = self._remove_last_asserts_from_suite(updated_node.body.body)
                 assert_stmts.reverse()
             case cst.IndentedBlock():
-                last_stmt = original_node.body.body[-1]
-                if not self.node_is_selected(last_stmt):
-                    return updated_node
                 (
                     assert_stmts,
                     assert_position,
                     new_statement_before_asserts,
-                ) = self._remove_last_asserts_from_IndentedBlock(original_node.body)
+                ) = self._remove_last_asserts_from_IndentedBlock(updated_node.body)
 
         if assert_stmts:
             # this means all the statements are asserts
@@ -132,10 +131,13 @@ class RemoveAssertionInPytestRaisesTransformer(
                     )
                 )
             else:
+                only_pass: cst.BaseStatement | cst.BaseSmallStatement = (
+                    cst.Pass()
+                    if isinstance(updated_node.body, cst.SimpleStatementSuite)
+                    else cst.SimpleStatementLine(body=[cst.Pass()])
+                )
                 new_with = updated_node.with_changes(
-                    body=updated_node.body.with_changes(
-                        body=[cst.SimpleStatementLine(body=[cst.Pass()])]
-                    )
+                    body=updated_node.body.with_changes(body=[only_pass])
                 )
             # TODO: need to report change for each line changed
             self.report_change(original_node)
